@@ -35,8 +35,16 @@ def read(source, format=None):
     if format:
         return ProvDocument.deserialize(source=source, format=format.lower())
 
+    content = None
+    if hasattr(source, "read"):
+        # A stream can only be consumed once: read it here and try every
+        # format on its content (instead of on the exhausted stream)
+        content = source.read()
+
     for format in serializers:
         try:
+            if content is not None:
+                return ProvDocument.deserialize(content=content, format=format)
             return ProvDocument.deserialize(source=source, format=format)
         except:
             pass
